@@ -20,9 +20,10 @@ type Op struct {
 	Val     string `json:"val,omitempty"`
 	Rev     Rev    `json:"rev,omitempty"`
 	Limit   int64  `json:"limit,omitempty"`
-	W       int    `json:"w,omitempty"`       // watch id (watch / cancel)
-	Consume string `json:"consume,omitempty"` // eager, never, every:N
-	Ms      int64  `json:"ms,omitempty"`      // sleep
+	W       int    `json:"w,omitempty"`          // watch id (watch / cancel)
+	Consume string `json:"consume,omitempty"`    // eager, never, every:N
+	Ms      int64  `json:"ms,omitempty"`         // sleep
+	Timeout int64  `json:"timeout_ms,omitempty"` // deadline of the request context (simulated ms), 0 = none
 	Node    int    `json:"node,omitempty"`
 	API     string `json:"api,omitempty"` // "", etcd, brain
 }
